@@ -305,6 +305,49 @@ theorem c13_project_fresh_partial (h : List (Op Text)) (hn : h.length ≤ u32Max
     rw [(query_of_inv i₁.db (fun g => rfl) hv k id).1,
         (query_of_inv i₂.db (fun g => (hsrc g).symm) hv k id).1]
 
+/-- **Document layer: the view theorem over the extended alphabet (set / remove / query / rename).**
+`rename_document` is `remove(old); remove(new); set(new, text)` on canonical keys, where `old = new`
+is possible (two spellings of one file).  After any history (fewer than 2³²/3 operations) the
+database under the project holds exactly the final texts by key — for a rename: the new key has the
+old key's text and the old key, if it is a different one, has none — two keys never share a file id,
+and no file belongs to no key. -/
+theorem c13_project_view_rename (h : List (POp Text)) (hn : 3 * h.length ≤ u32Max) :
+    (∀ key, projText (projRunX h) key = Spec.finalX h key) ∧
+    (∀ k₁ k₂ id, lookup (projRunX h).ids k₁ = some id → lookup (projRunX h).ids k₂ = some id → k₁ = k₂) ∧
+    (∀ id t, lookup (projRunX h).db.sources id = some t →
+      ∃ key, lookup (projRunX h).ids key = some id ∧ Spec.finalX h key = some t) := by
+  have i := pinv_runX h hn
+  refine ⟨i.spec, i.inj, ?_⟩
+  intro id t ht
+  obtain ⟨key, hk⟩ := i.orphan id (by simp [ht])
+  refine ⟨key, hk, ?_⟩
+  have := i.spec key
+  rw [hk] at this
+  rw [← this]
+  exact ht
+
+/-- **An aliasing rename keeps the file.**  Renaming a key that has a text to *itself* (the two
+URIs canonicalise to the same `SourceKey`) leaves every key's text as it was — in particular the
+renamed document is still in the project.  (With the two project calls in the other order,
+`set(new); remove(old)`, the file would be gone: that is the seeded change this layer was added for.) -/
+theorem c13_alias_rename_keeps_text (h : List (POp Text)) (hn : 3 * (h.length + 1) ≤ u32Max)
+    (key : Nat) (g : Nat) :
+    projText (projRunX (h ++ [.rename key key])) g = projText (projRunX h) g := by
+  have hlen : (h ++ [POp.rename key key]).length = h.length + 1 := by simp
+  have i₁ := pinv_runX (h ++ [POp.rename key key]) (by rw [hlen]; exact hn)
+  have i₂ := pinv_runX h (by omega)
+  have e₁ : projText (projRunX (h ++ [POp.rename key key])) g = _ := i₁.spec g
+  have e₂ : projText (projRunX h) g = _ := i₂.spec g
+  rw [e₁, e₂]
+  simp only [Spec.finalX, List.foldl_append, List.foldl_cons, List.foldl_nil, Spec.stepX]
+  cases hm : List.foldl Spec.stepX (fun _ => none) h key with
+  | none => rfl
+  | some t =>
+    simp only
+    by_cases e : g = key
+    · simp [e, hm]
+    · simp [e]
+
 /-! ### A repaired finding in the analysis itself (`C13-enum-next-value-overflow`, fixed by 0bd32a4)
 
 The clause "no query panics for any file contents" is about the queries, which the model leaves
@@ -415,6 +458,15 @@ example :
 `i64::MAX` no longer overflows, the implicit successor repeats `i64::MAX`; and an ordinary mixture. -/
 example : enumAssign [some i64Max, none] 0 = [i64Max, i64Max] ∧
     enumAssign [none, some 5, none, some (i64Max - 1), none] 0 = [0, 5, 6, i64Max - 1, i64Max] := by
+  decide
+
+/-- Renames, ordinary and aliasing, on a concrete history: key 0 is renamed to key 5 and key 1 to
+itself; both texts survive, key 5 gets a new file id, and the re-registered key 1 moves last. -/
+example :
+    let h : List (POp Nat) := [.op (.set 0 100), .op (.set 1 101), .rename 0 5, .rename 1 1, .rename 9 2]
+    projText (projRunX h) 5 = some 100 ∧ projText (projRunX h) 0 = none ∧
+      projText (projRunX h) 1 = some 101 ∧ projText (projRunX h) 2 = none ∧
+      sortById (projRunX h).ids = [(1, 3), (5, 2)] := by
   decide
 
 end TrustVerif.C13
